@@ -362,6 +362,9 @@ func (ex *Exec) viewRead(v View, i *T) *T {
 
 func (ex *Exec) strEq(a, b View) *T {
 	c := ex.c
+	if r, ok := ex.shapedCompare(a, b); ok {
+		return c.Eq(r, ex.intConst(0))
+	}
 	la, okA := a.Len.ConstS()
 	lb, okB := b.Len.ConstS()
 	if okA && okB && la != lb {
@@ -408,6 +411,9 @@ func (ex *Exec) strEq(a, b View) *T {
 // strCmp returns -1/0/+1 as a 64-bit term (lexicographic byte order).
 func (ex *Exec) strCmp(a, b View) *T {
 	c := ex.c
+	if r, ok := ex.shapedCompare(a, b); ok {
+		return r
+	}
 	ma, mb := ex.maxLen(a), ex.maxLen(b)
 	n := ma
 	if n < 0 || (mb >= 0 && mb < n) {
